@@ -292,6 +292,15 @@ impl TirGen {
             12 => Expression::UtxoSet(self.utxo_set(rng, d)),
             13 => Expression::Assets((0..rng.usize(3)).map(|_| self.asset_expr(rng, d)).collect()),
             14 | 15 => Expression::EvalParam(Box::new(self.param(rng, d))),
+            // built-ins over *constant* operands of every near-miss shape, so that the reducer really
+            // evaluates them (a random subtree is rarely constant and well-typed enough to get that far)
+            16 if rng.bool() => Expression::EvalBuiltIn(Box::new(match rng.below(5) {
+                0 => BuiltInOp::Add(self.const_operand(rng), self.const_operand(rng)),
+                1 => BuiltInOp::Sub(self.const_operand(rng), self.const_operand(rng)),
+                2 => BuiltInOp::Concat(self.const_operand(rng), self.const_operand(rng)),
+                3 => BuiltInOp::Negate(self.const_operand(rng)),
+                _ => BuiltInOp::Property(self.const_operand(rng), self.const_operand(rng)),
+            })),
             16 | 17 | 18 => Expression::EvalBuiltIn(Box::new(match rng.below(6) {
                 0 => BuiltInOp::NoOp(self.expr(rng, d)),
                 1 => BuiltInOp::Add(self.expr(rng, d), self.expr(rng, d)),
@@ -314,6 +323,55 @@ impl TirGen {
                 _ => Coerce::IntoScript(self.expr(rng, d)),
             })),
             _ => Expression::AdHocDirective(Box::new(self.adhoc(rng, d))),
+        }
+    }
+
+    /// A constant operand for a built-in: well-typed values, and the near misses of each (asset lists
+    /// whose amount / policy / name is a constant of the wrong kind, several entries of one class that
+    /// overflow when merged, extreme integers, empty containers).
+    pub fn const_operand(&mut self, rng: &mut Rng) -> Expression {
+        let big = [i128::MAX, i128::MIN, i128::MAX - 1, i128::MIN + 1, (1i128 << 64), -(1i128 << 64), 1, 0, -1];
+        match rng.below(10) {
+            0 => Expression::None,
+            1 => Expression::Number(if rng.bool() { *rng.pick(&big) } else { self.int(rng) }),
+            2 => Expression::Bytes(self.bytes(rng)),
+            3 => Expression::String(self.string(rng)),
+            4 => Expression::List((0..rng.usize(3)).map(|_| Expression::Number(self.int(rng))).collect()),
+            5 => Expression::Bool(rng.bool()),
+            _ => {
+                let n = rng.usize(4);
+                let shared_policy = rng.bytes(28);
+                let shared_name = rng.bytes(4);
+                Expression::Assets(
+                    (0..n)
+                        .map(|_| {
+                            let same_class = rng.bool();
+                            AssetExpr {
+                                policy: match rng.below(6) {
+                                    0 => Expression::None,
+                                    1 => Expression::Hash(shared_policy.clone()),
+                                    2 => Expression::String("policy".into()),
+                                    _ => Expression::Bytes(if same_class { shared_policy.clone() } else { rng.bytes(28) }),
+                                },
+                                asset_name: match rng.below(6) {
+                                    0 => Expression::None,
+                                    1 => Expression::String("NAME".into()),
+                                    2 => Expression::Number(7),
+                                    _ => Expression::Bytes(if same_class { shared_name.clone() } else { rng.bytes(5) }),
+                                },
+                                amount: match rng.below(8) {
+                                    0 => Expression::Bytes(rng.bytes(3)),
+                                    1 => Expression::None,
+                                    2 => Expression::Bool(true),
+                                    3 => Expression::String("1".into()),
+                                    4 | 5 => Expression::Number(*rng.pick(&big)),
+                                    _ => Expression::Number(self.int(rng)),
+                                },
+                            }
+                        })
+                        .collect(),
+                )
+            }
         }
     }
 
